@@ -25,7 +25,7 @@ from hpstatic.poly import Canon, I_ATOM
 from hpstatic.terms import (sym, intern, show, subterms, calls_in, TRUE, FALSE,
                             NONE, atoms_of, kw, num)
 
-MUTATION_TARGETS = {'holopy/core/process/fourier.py': ['fft', 'ifft', 'transform_metadata', 'ft_coord', 'ift_coord'], 'holopy/propagation/convolution_propagation.py': ['propagate', 'trans_func']}
+MUTATION_TARGETS = {'holopy/core/process/fourier.py': ['fft', 'ifft', 'transform_metadata', 'ft_coord', 'ift_coord', 'ft_coords', 'ift_coords'], 'holopy/propagation/convolution_propagation.py': ['propagate', 'trans_func']}
 
 LEVEL = 'other'
 META = dict(
@@ -33,7 +33,9 @@ META = dict(
     technique='operation-chain extraction by symbolic evaluation + inverse-pair '
               'table; dependence analysis of the coordinate transforms; '
               'canonical-form (degree / realness) analysis of the transfer '
-              'function; return-path (must-pass-through copy_metadata) check',
+              'function; return-path (must-pass-through copy_metadata) check'
+              '; per-axis source analysis of ft_coords / ift_coords through pop / sto'
+              're layers',
     level_text='Static: decides clauses A-D of C17 for all inputs at once (shape '
                'parity never enters: the rule is about which numpy.fft operation '
                'undoes which, on which axes).  A is a proof of the fft/ifft '
